@@ -163,6 +163,11 @@ def multi_block(rng):
     out = ""
     use_banks = rng.random() < 0.4
     pos = 0
+    if not use_banks and rng.random() < 0.3:
+        g0 = 8 * rng.randint(1, 6)
+        lines += ["vars:", "#res %d" % (g0 // 8)]
+        out = "0" * g0
+        pos = g0
     for b in range(nblocks):
         n = rng.choice([8, 16, 24, 256, 264, 8 * rng.randint(1, 70)])
         if rng.random() < 0.25:
@@ -173,12 +178,25 @@ def multi_block(rng):
             size_bytes = (n + 7) // 8 + rng.randint(0, 3)
             start = pos + gap
             lines.append("#bankdef b%d\n{\n    #addr 0x%x\n    #size 0x%x\n    #outp %d\n}" % (b, 0x1000 * (b + 1), size_bytes, start))
+            if rng.random() < 0.3:
+                lines.append("bl%d:" % b)
+            if rng.random() < 0.15:
+                # a bank that holds only a label (emits nothing)
+                pos = start + 8 * size_bytes
+                continue
             lines += data_lines(bits)
             out = out.ljust(start, "0") + bits
             pos = start + 8 * size_bytes
         else:
+            if rng.random() < 0.4:
+                lines.append("lab%d:" % b)                 # a label right before a gap (zero-sized span)
             if gap:
-                lines.append("#addr 0x%x" % ((pos + gap) // 8))
+                if rng.random() < 0.5:
+                    lines.append("#res %d" % (gap // 8))
+                else:
+                    lines.append("#addr 0x%x" % ((pos + gap) // 8))
+                if rng.random() < 0.3:
+                    lines.append("after%d:" % b)
             out = out.ljust(pos + gap, "0") + bits
             lines += data_lines(bits)
             pos = pos + gap + n
